@@ -320,14 +320,14 @@ func (ma *mergeAnalysis) ruleR11(c *Ctx, parts string) {
 			var p token.Pos = mf.fn.Pos()
 			for _, w := range mf.writes {
 				if w.space == "reply" && w.item == item && mf.classify(w) == "marker" {
-					if !mf.controlledByUnmarked(w.block()) {
+					if !mf.controlledByUnmarked(w.block()) && !mf.controlledByAccumulated(w.block()) {
 						found = true
 						p = w.instr.Pos()
 					}
 				}
 			}
 			c.ok("R11", mf.fn.Name()+"/lone-removal", p, found, fmt.Sprintf("%s re-emits removals that are not re-set into the reply %s", mf.fn.Name(), item),
-				"no marker write into the reply that is independent of the key being set again: a lone removal of an original item never reaches the runtime")
+				"no marker write into the reply that is independent of the key being set again and of what earlier plugins contributed: a lone removal of an original item never reaches the runtime")
 		}
 	}
 }
@@ -633,3 +633,21 @@ func lookupOf(v ssa.Value) *ssa.Lookup {
 }
 
 var _ = sort.Strings
+
+// controlledByAccumulated: block b is controlled by a condition derived from
+// accumulated state (the reply, the view, the ledger) — e.g. membership in a
+// set of keys found in the reply.
+func (mf *mergeFn) controlledByAccumulated(b *ssa.BasicBlock) bool {
+	for _, cd := range mf.itemControls(b) {
+		if mf.condProv(cd)&(tAcc|tStaged|tOwn) != 0 {
+			return true
+		}
+		cd = normCond(cd)
+		if ex, ok := cd.V.(*ssa.Extract); ok {
+			if lk, ok := ex.Tuple.(*ssa.Lookup); ok && mf.prov(lk.X)&(tAcc|tStaged|tOwn) != 0 {
+				return true
+			}
+		}
+	}
+	return false
+}
